@@ -643,7 +643,7 @@ def run(ctx: Ctx) -> int:
         at = guard_atoms(r, stop=arm)
         at = [(t, p) for t, p in at if t is not arm.test]
         neg_ns = [1 for t, p in at if not p and isinstance(t, ast.Call) and call_leaf(t) == "isinstance" and ast.unparse(t.args[1]) == "Namespace"]
-        other = [ast.unparse(t) for t, p in at if not (isinstance(t, ast.Call) and call_leaf(t) == "isinstance") and not (isinstance(t, ast.Compare) and ("dest" in ast.unparse(t) or ast.unparse(t).startswith("action is")))]
+        other = [ast.unparse(t) for t, p in at if not (isinstance(t, ast.Call) and call_leaf(t) == "isinstance") and not (isinstance(t, ast.Compare) and ("dest" in ast.unparse(t) or (isinstance(t.left, ast.Name) and len(t.ops) == 1 and isinstance(t.ops[0], (ast.Is, ast.IsNot)) and isinstance(t.comparators[0], ast.Constant) and t.comparators[0].value is None)))]
         if neg_ns and not other:
             good.append(r)
     ok = bool(good)
